@@ -203,7 +203,13 @@ type NetworkInfo struct {
 
 // NewNetworkInfo creates a NetworkInfo
 func NewNetworkInfo(networkType string, conf map[string]interface{}, ifName string) *NetworkInfo {
-	return &NetworkInfo{NetworkType: networkType, Args: map[string]string{}, Conf: conf, IfName: ifName}
+	// conf may be the daemon's network configuration shared by all requests while CmdAdd adds prevResult to it,
+	// so each request works on its own copy
+	copied := make(map[string]interface{}, len(conf)+1)
+	for k, v := range conf {
+		copied[k] = v
+	}
+	return &NetworkInfo{NetworkType: networkType, Args: map[string]string{}, Conf: copied, IfName: ifName}
 }
 
 func reverse(infos []*NetworkInfo) {
